@@ -619,6 +619,36 @@ def conn_chunked(rng, T):
     return {"kind": "conn", "device": dev, "log_size": 0, "threads": [t0], "pre_register": [1], "final_wait": 0}
 
 
+def conn_reconnect(rng, T):
+    """C02 over two connections of ONE YncaConnection object: the first link ends (planned close(), or it drops) while a line has arrived
+    only in part; connect() is called again on the same object (as ynca/terminal.py does); what the registered callback is told about the
+    second stream must be the independent reading of that stream alone"""
+    from .props import c02
+    def stream(t0):
+        out, t = [], t0
+        for l in [x for x in c02.gen_lines(rng, T) if len(x) < 200][:rng.randint(1, 5)] + [f"@MAIN:ZONENAME=end{rng.randint(0, 99)}"]:
+            if "SYS:MODELNAME" in l or "SYS:VERSION" in l:
+                continue
+            out.append([round(t, 3), l])
+            t += rng.choice([0.0, 0.01, 0.3])
+        return out, t
+    u1, t1 = stream(0.5)
+    nbytes = 40 + sum(len(l.encode()) + 2 for _, l in u1)                 # 40 bytes = the two probe replies
+    dev1 = {"type": "scripted", "latency": 0.02, "unsolicited": u1, "chunk": rng.randrange(1, 10 ** 6)}
+    how = rng.choice(["eof", "close", "close"])
+    if how == "eof":
+        dev1["eof_after_bytes"] = rng.randint(41, max(42, nbytes - 1))     # the link ends inside a line (or between lines)
+        ops = [["sleep", t1 + 6.0]]
+    else:
+        # a planned close() while the last line has arrived only in part: the receiver is cut off by the close
+        u1.append([round(t1 + 0.2, 3), "partial:@MAIN:VOL=-3"])
+        ops = [["sleep", t1 + 1.0], ["close"], ["sleep", 3.0]]
+    u2, t2 = stream(0.4)
+    dev2 = {"type": "scripted", "latency": 0.02, "unsolicited": u2, "chunk": rng.randrange(1, 10 ** 6)}
+    ops += [["reconnect"], ["sleep", t2 + 3.0], ["connected"]]
+    return {"kind": "conn", "device": dev1, "reconnect_device": dev2, "log_size": 0, "threads": [ops], "pre_register": [1], "final_wait": 0}
+
+
 RAW_TEXTS = ["@MAIN:VOL=-30.0", "@MAIN:ZONENAME=a\nb", "@MAIN:ZONENAME=form\x0cfeed", "@MAIN:ZONENAME=ls\u2028x", "@MAIN:ZONENAME=fs\x1cx", "@MAIN:ZONENAME=nel\x85x",
              "@MAIN:ZONENAME=a\rb", "  @MAIN:PWR=On ", "", "   ", "@SYS:PWR=?", "@MAIN:ZONENAME=é𝄞", "@MAIN:VOL=Up", "@MAIN:VOL=Up", "x", "@MAIN:ZONENAME=tab\there", "@MAIN:ZONENAME=vt\x0bx"]
 
